@@ -35,17 +35,16 @@ harnesses! {
         forget(boxed); forget(c);
     }
     #[kani::unwind(10)]
-    fn c16_vec_calls(nd) {
+    fn c16_vec_into(nd) {
         let mut boxed: Box<dyn VecResampler<f64>> =
             Box::new(FastFixedOut::<f64>::new(1.0, 2.0, PolynomialDegree::Linear, 2, 1).unwrap());
         let mut c = FastFixedOut::<f64>::new(1.0, 2.0, PolynomialDegree::Linear, 2, 1).unwrap();
         let mut xv = vec![vec![0.0f64; 6]];
         fill_line(&mut xv[0][..], 0);
-        let which = nd.u8();
+        let which: u8 = 0;
         let sent = SENT;
         let mut ov = vec![vec![sent; 2]];
         let mut oc = [sent; 2];
-        nd.assume(which < 4);
         if which == 0 {
             let ra = boxed.process_into_buffer(&xv, &mut ov, None);
             let rb = R::process_into_buffer(&mut c, &[&xv[0][..]], &mut [&mut oc[..]], None);
@@ -88,7 +87,174 @@ harnesses! {
             forget(ra);
         }
         check!(boxed.input_frames_next() == R::input_frames_next(&c), "C16.vec_state[base]");
-        cover!(which == 3, "process_partial(None) through the object");
+        forget(xv); forget(ov);
+        forget(boxed); forget(c);
+    }
+    #[kani::unwind(10)]
+    fn c16_vec_process(nd) {
+        let mut boxed: Box<dyn VecResampler<f64>> =
+            Box::new(FastFixedOut::<f64>::new(1.0, 2.0, PolynomialDegree::Linear, 2, 1).unwrap());
+        let mut c = FastFixedOut::<f64>::new(1.0, 2.0, PolynomialDegree::Linear, 2, 1).unwrap();
+        let mut xv = vec![vec![0.0f64; 6]];
+        fill_line(&mut xv[0][..], 0);
+        let which: u8 = 1;
+        let sent = SENT;
+        let mut ov = vec![vec![sent; 2]];
+        let mut oc = [sent; 2];
+        if which == 0 {
+            let ra = boxed.process_into_buffer(&xv, &mut ov, None);
+            let rb = R::process_into_buffer(&mut c, &[&xv[0][..]], &mut [&mut oc[..]], None);
+            check!(matches!((&ra, &rb), (Ok(x), Ok(y)) if x == y), "C16.vec_into_result[base]");
+            check!(ov[0][0].to_bits() == oc[0].to_bits() && ov[0][1].to_bits() == oc[1].to_bits(), "C16.vec_into_values[base]");
+        } else if which == 1 {
+            let ra = boxed.process(&xv, None);
+            let rb = R::process_into_buffer(&mut c, &[&xv[0][..]], &mut [&mut oc[..]], None);
+            match (&ra, &rb) {
+                (Ok(v), Ok((_, cnt))) => {
+                    check!(v.len() == 1 && v[0].len() == *cnt && *cnt == 2, "C16.vec_process_lengths[base]");
+                    if v.len() == 1 && v[0].len() == 2 {
+                        check!(v[0][0].to_bits() == oc[0].to_bits() && v[0][1].to_bits() == oc[1].to_bits(), "C16.vec_process_values[base]");
+                    }
+                }
+                _ => { check!(false, "C16.vec_process_result[base]"); }
+            }
+            forget(ra);
+        } else if which == 2 {
+            // partial through the object: Some(short) and the concrete twin
+            let short = vec![vec![1.5f64, 2.5, 3.5]];
+            let ra = boxed.process_partial_into_buffer(Some(&short), &mut ov, None);
+            let rb = R::process_partial_into_buffer(&mut c, Some(&[&short[0][..]]), &mut [&mut oc[..]], None);
+            check!(matches!((&ra, &rb), (Ok(x), Ok(y)) if x == y), "C16.vec_partial_result[base]");
+            check!(ov[0][0].to_bits() == oc[0].to_bits() && ov[0][1].to_bits() == oc[1].to_bits(), "C16.vec_partial_values[base]");
+            forget(short);
+        } else {
+            let ra = boxed.process_partial(None, None);
+            let none: Option<&[&[f64]]> = None;
+            let rb = R::process_partial_into_buffer(&mut c, none, &mut [&mut oc[..]], None);
+            match (&ra, &rb) {
+                (Ok(v), Ok((_, cnt))) => {
+                    check!(v.len() == 1 && v[0].len() == *cnt, "C16.vec_process_partial_lengths[base]");
+                    if v.len() == 1 && v[0].len() == 2 {
+                        check!(v[0][0].to_bits() == oc[0].to_bits() && v[0][1].to_bits() == oc[1].to_bits(), "C16.vec_process_partial_values[base]");
+                    }
+                }
+                _ => { check!(false, "C16.vec_process_partial_result[base]"); }
+            }
+            forget(ra);
+        }
+        check!(boxed.input_frames_next() == R::input_frames_next(&c), "C16.vec_state[base]");
+        forget(xv); forget(ov);
+        forget(boxed); forget(c);
+    }
+    #[kani::unwind(10)]
+    fn c16_vec_partial(nd) {
+        let mut boxed: Box<dyn VecResampler<f64>> =
+            Box::new(FastFixedOut::<f64>::new(1.0, 2.0, PolynomialDegree::Linear, 2, 1).unwrap());
+        let mut c = FastFixedOut::<f64>::new(1.0, 2.0, PolynomialDegree::Linear, 2, 1).unwrap();
+        let mut xv = vec![vec![0.0f64; 6]];
+        fill_line(&mut xv[0][..], 0);
+        let which: u8 = 2;
+        let sent = SENT;
+        let mut ov = vec![vec![sent; 2]];
+        let mut oc = [sent; 2];
+        if which == 0 {
+            let ra = boxed.process_into_buffer(&xv, &mut ov, None);
+            let rb = R::process_into_buffer(&mut c, &[&xv[0][..]], &mut [&mut oc[..]], None);
+            check!(matches!((&ra, &rb), (Ok(x), Ok(y)) if x == y), "C16.vec_into_result[base]");
+            check!(ov[0][0].to_bits() == oc[0].to_bits() && ov[0][1].to_bits() == oc[1].to_bits(), "C16.vec_into_values[base]");
+        } else if which == 1 {
+            let ra = boxed.process(&xv, None);
+            let rb = R::process_into_buffer(&mut c, &[&xv[0][..]], &mut [&mut oc[..]], None);
+            match (&ra, &rb) {
+                (Ok(v), Ok((_, cnt))) => {
+                    check!(v.len() == 1 && v[0].len() == *cnt && *cnt == 2, "C16.vec_process_lengths[base]");
+                    if v.len() == 1 && v[0].len() == 2 {
+                        check!(v[0][0].to_bits() == oc[0].to_bits() && v[0][1].to_bits() == oc[1].to_bits(), "C16.vec_process_values[base]");
+                    }
+                }
+                _ => { check!(false, "C16.vec_process_result[base]"); }
+            }
+            forget(ra);
+        } else if which == 2 {
+            // partial through the object: Some(short) and the concrete twin
+            let short = vec![vec![1.5f64, 2.5, 3.5]];
+            let ra = boxed.process_partial_into_buffer(Some(&short), &mut ov, None);
+            let rb = R::process_partial_into_buffer(&mut c, Some(&[&short[0][..]]), &mut [&mut oc[..]], None);
+            check!(matches!((&ra, &rb), (Ok(x), Ok(y)) if x == y), "C16.vec_partial_result[base]");
+            check!(ov[0][0].to_bits() == oc[0].to_bits() && ov[0][1].to_bits() == oc[1].to_bits(), "C16.vec_partial_values[base]");
+            forget(short);
+        } else {
+            let ra = boxed.process_partial(None, None);
+            let none: Option<&[&[f64]]> = None;
+            let rb = R::process_partial_into_buffer(&mut c, none, &mut [&mut oc[..]], None);
+            match (&ra, &rb) {
+                (Ok(v), Ok((_, cnt))) => {
+                    check!(v.len() == 1 && v[0].len() == *cnt, "C16.vec_process_partial_lengths[base]");
+                    if v.len() == 1 && v[0].len() == 2 {
+                        check!(v[0][0].to_bits() == oc[0].to_bits() && v[0][1].to_bits() == oc[1].to_bits(), "C16.vec_process_partial_values[base]");
+                    }
+                }
+                _ => { check!(false, "C16.vec_process_partial_result[base]"); }
+            }
+            forget(ra);
+        }
+        check!(boxed.input_frames_next() == R::input_frames_next(&c), "C16.vec_state[base]");
+        forget(xv); forget(ov);
+        forget(boxed); forget(c);
+    }
+    #[kani::unwind(10)]
+    fn c16_vec_process_partial(nd) {
+        let mut boxed: Box<dyn VecResampler<f64>> =
+            Box::new(FastFixedOut::<f64>::new(1.0, 2.0, PolynomialDegree::Linear, 2, 1).unwrap());
+        let mut c = FastFixedOut::<f64>::new(1.0, 2.0, PolynomialDegree::Linear, 2, 1).unwrap();
+        let mut xv = vec![vec![0.0f64; 6]];
+        fill_line(&mut xv[0][..], 0);
+        let which: u8 = 3;
+        let sent = SENT;
+        let mut ov = vec![vec![sent; 2]];
+        let mut oc = [sent; 2];
+        if which == 0 {
+            let ra = boxed.process_into_buffer(&xv, &mut ov, None);
+            let rb = R::process_into_buffer(&mut c, &[&xv[0][..]], &mut [&mut oc[..]], None);
+            check!(matches!((&ra, &rb), (Ok(x), Ok(y)) if x == y), "C16.vec_into_result[base]");
+            check!(ov[0][0].to_bits() == oc[0].to_bits() && ov[0][1].to_bits() == oc[1].to_bits(), "C16.vec_into_values[base]");
+        } else if which == 1 {
+            let ra = boxed.process(&xv, None);
+            let rb = R::process_into_buffer(&mut c, &[&xv[0][..]], &mut [&mut oc[..]], None);
+            match (&ra, &rb) {
+                (Ok(v), Ok((_, cnt))) => {
+                    check!(v.len() == 1 && v[0].len() == *cnt && *cnt == 2, "C16.vec_process_lengths[base]");
+                    if v.len() == 1 && v[0].len() == 2 {
+                        check!(v[0][0].to_bits() == oc[0].to_bits() && v[0][1].to_bits() == oc[1].to_bits(), "C16.vec_process_values[base]");
+                    }
+                }
+                _ => { check!(false, "C16.vec_process_result[base]"); }
+            }
+            forget(ra);
+        } else if which == 2 {
+            // partial through the object: Some(short) and the concrete twin
+            let short = vec![vec![1.5f64, 2.5, 3.5]];
+            let ra = boxed.process_partial_into_buffer(Some(&short), &mut ov, None);
+            let rb = R::process_partial_into_buffer(&mut c, Some(&[&short[0][..]]), &mut [&mut oc[..]], None);
+            check!(matches!((&ra, &rb), (Ok(x), Ok(y)) if x == y), "C16.vec_partial_result[base]");
+            check!(ov[0][0].to_bits() == oc[0].to_bits() && ov[0][1].to_bits() == oc[1].to_bits(), "C16.vec_partial_values[base]");
+            forget(short);
+        } else {
+            let ra = boxed.process_partial(None, None);
+            let none: Option<&[&[f64]]> = None;
+            let rb = R::process_partial_into_buffer(&mut c, none, &mut [&mut oc[..]], None);
+            match (&ra, &rb) {
+                (Ok(v), Ok((_, cnt))) => {
+                    check!(v.len() == 1 && v[0].len() == *cnt, "C16.vec_process_partial_lengths[base]");
+                    if v.len() == 1 && v[0].len() == 2 {
+                        check!(v[0][0].to_bits() == oc[0].to_bits() && v[0][1].to_bits() == oc[1].to_bits(), "C16.vec_process_partial_values[base]");
+                    }
+                }
+                _ => { check!(false, "C16.vec_process_partial_result[base]"); }
+            }
+            forget(ra);
+        }
+        check!(boxed.input_frames_next() == R::input_frames_next(&c), "C16.vec_state[base]");
         forget(xv); forget(ov);
         forget(boxed); forget(c);
     }
